@@ -254,6 +254,16 @@ fn gen_ranges(rng: &mut Rng, flen: usize) -> Vec<(u64, usize)> {
         for i in (1..sel.len()).rev() { let j = rng.below(i as u64 + 1) as usize; sel.swap(i, j); }
     }
     sel.truncate(12);
+    // ranges of one size listed in DESCENDING order, back to back (each one ends where the one before it begins): not a
+    // run -- adjacency is "the next one starts where this one ends"
+    if flen >= 24 && rng.chance(1, 8) {
+        let sz = rng.range(2, (flen as u64 / 4).min(30)) as usize;
+        let n = rng.range(2, 4) as usize;
+        let top = rng.range((n * sz) as u64, flen as u64) as usize;
+        let mut desc: Vec<(u64, usize)> = (1..=n).map(|k| ((top - k * sz) as u64, sz)).collect();
+        if rng.chance(1, 2) { sel.append(&mut desc); } else { desc.append(&mut sel); sel = desc; }
+        sel.truncate(12);
+    }
     // an empty range somewhere in the list (offset of a neighbour, or anywhere): its bytes are no bytes
     if !sel.is_empty() && rng.chance(1, 6) {
         let k = rng.below(sel.len() as u64 + 1) as usize;
